@@ -317,11 +317,17 @@ type PWCase struct {
 	Xs, Ys []pbt.F
 	Q      []pbt.F // query points
 	Step   int     // the tables are handed over as stepped views of larger arrays when > 1
+	// Block: both tables are contiguous views into ONE array, xs directly followed by ys and a further element (the
+	// layout of a model's parameter column: the wrappers slice tables out of the parameter block)
+	Block bool `json:",omitempty"`
 }
 
 func genPW(t *rapid.T) PWCase {
 	n := rapid.IntRange(2, 12).Draw(t, "n")
 	c := PWCase{Step: rapid.IntRange(1, 3).Draw(t, "step")}
+	if rapid.IntRange(0, 2).Draw(t, "block") == 0 {
+		c.Step, c.Block = 1, true
+	}
 	x := rapid.Float64Range(-1e3, 1e3).Draw(t, "x0")
 	xs := make([]float64, n)
 	for i := range xs {
@@ -396,6 +402,29 @@ func checkPW(c PWCase) (r pbt.Result) {
 	if c.Step > 1 {
 		r.Label("stepped-table-views")
 	}
+	var block data.ND1Float64
+	var blockWant []float64
+	if c.Block {
+		r.Label("tables-in-one-block")
+		blockWant = append(append(append([]float64{-7}, xs...), ys...), 12345)
+		block = data.NewArray1DFloat64(len(blockWant))
+		for i, v := range blockWant {
+			block.Set1(i, v)
+		}
+		xa = block.Slice([]int{1}, []int{n}, nil).(data.ND1Float64)
+		ya = block.Slice([]int{1 + n}, []int{n}, nil).(data.ND1Float64)
+	}
+	defer func() {
+		// a lookup reads its tables: whatever surrounds them must be what it was
+		if c.Block && r.Fail == "" {
+			for i, v := range blockWant {
+				if g := block.Get1(i); g != v {
+					r.Failf("after %d lookups element %d of the array holding the tables is %v, it was %v (x table at 1..%d, y table behind it)", len(c.Q), i, g, v, n)
+					return
+				}
+			}
+		}
+	}()
 	for _, qf := range c.Q {
 		q := float64(qf)
 		var y float64
